@@ -153,6 +153,10 @@ def threads_set(tier):
                 continue
             p = fp.build(mac, ds, init_ev=True, flavour="Opt" if mac.startswith("try") else None)
             out.append(tprog("%s/%s" % (mac, fp.pname(ds)), p, ds, callers=callers, check_threads=True))
+            if len(ds) in (2, 3) and (tier != "quick" or max(ds) <= 2):
+                # initial values written as if / match / unsafe / loop expressions (one form per branch): evaluated by the branch's thread
+                p = fp.build(mac, ds, init_ev=True, init_form=("if", "match", "unsafe", "loop")[len(ds) % 2:][:3], flavour="Opt" if mac.startswith("try") else None)
+                out.append(tprog("%s/%s/initforms" % (mac, fp.pname(ds)), p, ds, callers=("main",), check_threads=True))
             if len(ds) >= 2 and max(ds) >= 2 and (tier != "quick" or len(ds) == 2 or ds in ((1, 2, 2), (2, 1, 3))):
                 # every later step is a single deferred operator whose operand is a block capture: the callback the block yields
                 # still runs on the branch's own thread
